@@ -283,7 +283,7 @@ class Gen:
     def msm(self, r, f, mode, invalid=None):
         gnss = f["gnss"]
         if invalid is None and mode == "wild" and r.random() < 0.35:
-            invalid = r.choice(["sat0", "sat65", "cellsat0", "badsig", "dupsat", "dupcell", "mismatch-extra-sat", "mismatch-extra-cell",
+            invalid = r.choice(["sat0", "sat65", "cellsat0", "badsig", "dupsat", "dupcell", "mismatch-extra-sat", "mismatch-extra-cell", "mismatch-swap",
                                 "cells65", "empty", "only-sats", "only-cells"])
         S, G, cells = self.msm_sets(r, gnss, max_cells=64 if invalid is None else 24)
         if invalid is not None and len(S) > 8:
@@ -330,6 +330,13 @@ class Gen:
             extra = [x for x in range(1, 65) if x not in S]
             if extra:
                 S.append(r.choice(extra))
+        elif invalid == "mismatch-swap":
+            # same number of satellites on both sides, different sets: the cells of one listed satellite are
+            # moved to a satellite that is not listed
+            extra = [x for x in range(1, 65) if x not in S]
+            if extra and S:
+                old, new = r.choice(S), r.choice(extra)
+                cells = [((new if c[0] == old else c[0]), c[1]) for c in cells]
         elif invalid == "mismatch-extra-cell":
             extra = [x for x in range(1, 65) if x not in S]
             if extra:
